@@ -30,10 +30,10 @@ ASSUMPTIONS = []
 ALPHA = ['<', '>', '&', '$', '{', '}', 'a', '"', '\n', 'é', '/', '?', 'X']      # X is replaced by ${x}
 LITS = ['<b>', '</b>', '<p tal:content="x">', '<?python y = 1 ?>', '<!-- c -->', '<![CDATA[', ']]>', '&amp;', '&lt;', '&', '<', '>', '$$', '$',
         'x $ y', '{', '}', '} {', 'é', '\n', ' \n  ', '<?xml version="1.0"?>', '<!DOCTYPE html>', "it's", '"q"', '$$$$', '<a href="${', '<br/>',
-        '<tal:block replace="x"/>', 'metal:use-macro="m"', '${', '$ {x}', 'i18n:translate=""', '</', '<!', '<?']
+        '<tal:block replace="x"/>', 'metal:use-macro="m"', '${', '$ {x}', 'i18n:translate=""', '</', '<!', '<?', '\n\n', '\n \n', '}\n', 'p { margin: 0 }\n', '\n\t\n']
 EXPRS = [("x", '<V&>'), ("y", 'Zoë'), ("'}'", '}'), ("{'a': 1}['a']", '1'), ("'<' + y + '>'", '<Zoë>'), ("len({1, 2})", '2'), ("f'{y}!'", 'Zoë!'),
          ("n", '7'), ("1 < 2", 'True'), ("'$$'", '$$'), ("'{0}'.format(y)", 'Zoë'), ("'\"'", '"'), ('"\'"', "'"),
-         ("str({'k': '}'}['k'])", '}'), ("none", ''), ("'<b>'", '<b>'), ("x | y", '<V&>'), ("nope | y", 'Zoë'), ("structure: x", '<V&>')]
+         ("str({'k': '}'}['k'])", '}'), ("none", ''), ("max(1,\n\n 2)", '2'), ("'a' +\n \n 'b'", 'ab'), ("(y\n\n)", 'Zoë'), ("[n,\n\t\n n][0]", '7'), ("'<b>'", '<b>'), ("x | y", '<V&>'), ("nope | y", 'Zoë'), ("structure: x", '<V&>')]
 VARS = [['x', {'str': '<V&>'}], ['y', {'str': 'Zoë'}], ['n', 7], ['none', None]]
 
 
